@@ -45,6 +45,8 @@ def run(tier, seed, replay):
         print("verdict:", msg or "statement holds on this input")
         return 1 if msg else 0
     chk = Check("C03", tier, seed)
+    from .frames_common import file_source_obligations
+    file_source_obligations(chk)
     thorough = tier == "thorough"
     E = chk.engine()
     for c in C.contracts():
